@@ -323,6 +323,71 @@ def atomic_idiom(res: Result, target_param: str) -> Tuple[bool, str, dict]:
     return True, "write temp -> close -> os.replace(temp, target)", facts
 
 
+def _contexts(prog, results, q, live: T, path: T, depth: int = 0):
+    """[(function, condition, path)]: the condition under which the sink
+    runs and the path it writes, expressed in the callers' terms — following
+    the calls upwards while the condition depends on parameters; the
+    function's own defaults are one context. None if too deep."""
+    import ast as _ast
+    f = results[q].func
+    names = [x.args[0] for x in live.walk() if x.op == "param"]
+    if not names:
+        return [(q, live, path)]
+    if depth > 3:
+        return None
+    out = []
+    dflt = f.defaults()
+    sub = {}
+    for n in set(names):
+        d = dflt.get(n)
+        if isinstance(d, _ast.Constant):
+            sub[tm.param(n)] = const(d.value)
+    if len(sub) == len(set(names)):
+        out.append((q + " (defaults)",
+                    tm.deep_select(live.map(sub.get), lambda a: None),
+                    path))
+    callers = 0
+    for cq, res in results.items():
+        for e in res.of_kind("call"):
+            tgt = e.data.get("target")
+            if tgt is None or tgt.qualname != q or e.data.get("inlined"):
+                continue
+            callers += 1
+            b = dict(e.data.get("bound") or {})
+            m = {}
+            for pn in f.params + f.kwonly:
+                if pn in b:
+                    m[tm.param(pn)] = b[pn]
+                elif isinstance(dflt.get(pn), _ast.Constant):
+                    m[tm.param(pn)] = const(dflt[pn].value)
+            l2 = tm.mk_and(e.live, live.map(m.get))
+            l2 = tm.deep_select(l2, lambda a: None)
+            p2 = path.map(m.get)
+            if tm.is_const(l2, False):
+                continue
+            up = _contexts(prog, results, cq, l2, p2, depth + 1)
+            if up is None:
+                return None
+            out.extend(up)
+    return out
+
+
+def _settings_case(live: T, path: T, prot) -> Optional[bool]:
+    """the condition for a path that denotes a protected file: a successful
+    os.path.samefile(path, <protected constant>) holds (a comparison of the
+    spellings would not: another spelling of the same file passes it)"""
+    def assign(a: T):
+        if a.op == "exc":
+            return False
+        if is_call_to(a, "os.path.samefile") and len(a.args[1]) == 2:
+            x, y = a.args[1]
+            if any(z.op == "global" and z.args[0] in prot
+                   for z in (x, y)) and (x is path or y is path):
+                return True
+        return None
+    return tm.fold(tm.deep_select(live, assign), assign)
+
+
 def check(ctx):
     prog = ctx.prog
     results = sweep(prog, "plain")
@@ -369,6 +434,30 @@ def check(ctx):
             if q in atomic_funcs:
                 continue      # the idiom's own temp-file write
             nsinks += 1
+            if any(x.op == "param" for x in e.live.walk()):
+                # the write is behind a switch of its function: judged in
+                # the contexts it is called in (and at the defaults)
+                ctxs = _contexts(prog, results, q, e.live, p)
+                hit = None if ctxs is None else [
+                    c for c in ctxs if cap.term_capable(c[2], c[0]) and
+                    _settings_case(c[1], c[2], prot) is not False]
+                if hit is not None and not hit:
+                    ctx.ob("C19.1", e, True,
+                           f"{q}: the in-place {kind} is unreachable when "
+                           f"the path denotes settings.json / "
+                           f"assets_version ({len(ctxs)} calling contexts, "
+                           f"defaults included)",
+                           key=f"C19.1:inplace:{q}:{kind.split('(')[0]}")
+                    continue
+                if hit:
+                    ctx.ob("C19.1", e, False,
+                           f"{q}: {kind} rewrites in place a path that can "
+                           f"denote settings.json/assets_version when "
+                           f"called from {hit[0][0]} (condition "
+                           f"{fmt(hit[0][1])[:100]})",
+                           key=f"C19.1:inplace:{q}:{kind.split('(')[0]}",
+                           path=fmt(p))
+                    continue
             ctx.ob("C19.1", e, False,
                    f"{q}: {kind} rewrites a path that can denote "
                    f"settings.json/assets_version in place (a kill or a "
